@@ -58,9 +58,19 @@ func (w *world) base(r *emit.Rand, key string) any {
 	case "da.Msg.SubmitInvalidity":
 		return &datypes.MsgSubmitInvalidity{Sender: a(), MetadataUri: "ipfs://item0", Indices: []int64{0, 1}}
 	case "da.Msg.SubmitValidityProof":
-		// the validator account itself submits, for the item that is being challenged
-		return &datypes.MsgSubmitValidityProof{Sender: sdk.AccAddress(w.valBytes).String(), ValidatorAddress: val, MetadataUri: "ipfs://challenged",
-			Indices: []int64{0}, Proofs: [][]byte{emptyProof()}}
+		// the validator itself or its registered deputy proves one or two shards of the challenged item
+		sender := sdk.AccAddress(w.valBytes).String()
+		if r.Bool() {
+			sender = w.deputy
+		}
+		i := r.Intn(3)
+		req := &datypes.MsgSubmitValidityProof{Sender: sender, ValidatorAddress: val, MetadataUri: "ipfs://challenged",
+			Indices: []int64{int64(i)}, Proofs: [][]byte{w.proofs[i]}}
+		if r.Bool() {
+			j := (i + 1) % 3
+			req.Indices, req.Proofs = append(req.Indices, int64(j)), append(req.Proofs, w.proofs[j])
+		}
+		return req
 	case "da.Msg.UpdateParams":
 		p, err := w.h.App.DaKeeper.Params.Get(ctx)
 		must(err)
@@ -261,9 +271,58 @@ func (w *world) runHead(m method, req any, tag string) (term string, info map[st
 		}
 		info["detail"] = det
 	}
-	term = fmt.Sprintf("CHead %q %s %d", m.Key(), val, code)
+	n, o := w.context(m.Key(), req)
+	term = fmt.Sprintf("CHead %q %s %d %s %d", m.Key(), val, n, o, code)
 	return term, info, cls
 }
 
 var _ = time.Second
 var _ = shape.Bytes
+
+// context reads from the state what the model takes as oracle values for a request: the length
+// of the stored slice the request indexes into, and (where the harness can decide them from the
+// state alone) the outcomes of the handler's state-dependent branches, in source order.
+func (w *world) context(key string, req any) (n int, oracles string) {
+	oracles = "None"
+	msg, ok := req.(*datypes.MsgSubmitValidityProof)
+	if !ok || msg == nil {
+		return 0, oracles
+	}
+	ctx := w.h.Ctx()
+	k := w.h.App.DaKeeper
+	item, found, err := k.GetPublishedData(ctx, msg.MetadataUri)
+	if err != nil {
+		return 0, oracles
+	}
+	if found {
+		n = len(item.ShardDoubleHashes)
+	}
+	// branch 1: the validator exists and is bonded, the sender is the validator or its deputy
+	signer := false
+	sender, err1 := w.h.App.AuthKeeper.AddressCodec().StringToBytes(msg.Sender)
+	valb, err2 := w.h.App.StakingKeeper.ValidatorAddressCodec().StringToBytes(msg.ValidatorAddress)
+	if err1 == nil && err2 == nil {
+		if v, err := w.h.App.StakingKeeper.Validator(ctx, sdk.ValAddress(valb)); err == nil && v.IsBonded() {
+			if bytes.Equal(sender, valb) {
+				signer = true
+			} else if dep, ok, err := k.GetProofDeputy(ctx, valb); err == nil && ok && bytes.Equal(dep, sender) {
+				signer = true
+			}
+		}
+	}
+	// branch 2: the item exists, is being challenged, the proof period is not over
+	itemOK := false
+	if found && item.Status == datypes.Status_STATUS_CHALLENGING {
+		if params, err := k.Params.Get(ctx); err == nil && !item.Timestamp.Add(params.ProofPeriod).Before(ctx.BlockTime()) {
+			itemOK = true
+		}
+	}
+	// branch 3: every proof parses
+	parse := true
+	for _, p := range msg.Proofs {
+		if _, err := (&groth16bn254.Proof{}).ReadFrom(bytes.NewReader(p)); err != nil {
+			parse = false
+		}
+	}
+	return n, fmt.Sprintf("(Some [%s; %s; %s])", emit.Bool(signer), emit.Bool(itemOK), emit.Bool(parse))
+}
